@@ -904,14 +904,21 @@ def _small_maps():
                 yield (h, w), name + '+nan', b
 
 
-_OPTS = [None, {'dtype': 'f4'}, {'prec32': True}, {'typ': 'FIL'}, {'typ': 'WFR', 'nnb': True}, {'comment': 'surface! 7'}, {'fileobj': True}]
+_OPTS = [None, {'layout': 'F'}, {'layout': 'view'}, {'dtype': 'f4'}, {'prec32': True}, {'typ': 'FIL'}, {'typ': 'WFR', 'nnb': True}, {'comment': 'surface! 7'}, {'fileobj': True}]
 
 
 def _apply_dtype(a, opt):
+    """the array object of a recorded case: dtype and memory layout are part of the input"""
     if opt and opt.get('dtype') == 'f4':
-        return a.astype(np.float32)
-    if opt and opt.get('dtype') == 'i4' and not np.isnan(a).any():
-        return np.rint(a).astype(np.int32)
+        a = a.astype(np.float32)
+    elif opt and opt.get('dtype') == 'i4' and not np.isnan(a).any():
+        a = np.rint(a).astype(np.int32)
+    if opt and opt.get('layout') == 'F':
+        a = np.asfortranarray(a)
+    elif opt and opt.get('layout') == 'view':
+        big = np.full((2 * a.shape[0] + 1, 3 * a.shape[1] + 2), 123, dtype=a.dtype)
+        big[1::2, 2::3] = a
+        a = big[1::2, 2::3]
     return a
 
 
@@ -986,7 +993,7 @@ def search(ctx, hints):
                 break
             for route in ('zygo', 'ifg', 'codev'):
                 for opt in (_OPTS if a.size <= 6 or a.size >= 600 else _OPTS[:1]):
-                    if opt and (('typ' in opt or 'comment' in opt) != (route == 'codev')) and ('dtype' not in opt and 'prec32' not in opt):
+                    if opt and (('typ' in opt or 'comment' in opt) != (route == 'codev')) and ('dtype' not in opt and 'prec32' not in opt and 'layout' not in opt):
                         continue
                     if opt and 'fileobj' in opt and route != 'zygo':
                         continue
